@@ -16,6 +16,7 @@
   of raw import strings of that file in the order the compiler meets them.
 -/
 import D2V.Model.SemAst
+import D2V.Model.Boards
 namespace D2V.Import
 open D2V.SemAst
 
@@ -272,3 +273,42 @@ def inline (p : Prog) : Except InlErr Body :=
   | f :: _ => inlineBody (p.length + 2) p [f.name] f.body
 
 end D2V.Import
+
+/-! ### flat fragment: imports as "compile the file in its own map, then `OverlayMap`" against inlining
+    (board content as in `Model/Boards.lean`: ordered map object ↦ attributes) -/
+namespace D2V.ImportFlat
+open D2V.Boards
+
+/-- `OverlayField` on the flat fragment: the overlay's attributes win, attribute by attribute -/
+def mergeAttrs (base over : Attrs) : Attrs := over.foldl (fun a kv => setAttr a kv.1 kv.2) base
+
+/-- `OverlayMap`: fields of the overlay are merged into the base field of the same name or appended -/
+def overlay (base : Content) : Content → Content
+  | [] => base
+  | (n, a) :: rest =>
+    if base.has n then overlay (base.map fun e => if e.1 == n then (n, mergeAttrs e.2 a) else e) rest
+    else overlay (base ++ [(n, a)]) rest
+
+/-- a file of the flat fragment: declarations and spread imports (index into the file table) -/
+inductive FItem
+  | op (o : Op)
+  | spread (file : Nat)
+
+abbrev Files := List (List FItem)
+
+/-- compile a file body into `dst`: a spread import compiles the imported file in its own (empty) map and overlays it -/
+def evalF : Nat → Files → List FItem → Content → Content
+  | _, _, [], dst => dst
+  | n, fs, .op o :: rest, dst => evalF n fs rest (applyOp dst o)
+  | 0, _, .spread _ :: _, dst => dst
+  | n + 1, fs, .spread i :: rest, dst =>
+    evalF (n + 1) fs rest (overlay dst (evalF n fs (fs.getD i []) []))
+
+/-- the inlined program -/
+def inlineF : Nat → Files → List FItem → List Op
+  | _, _, [] => []
+  | n, fs, .op o :: rest => o :: inlineF n fs rest
+  | 0, _, .spread _ :: _ => []
+  | n + 1, fs, .spread i :: rest => inlineF n fs (fs.getD i []) ++ inlineF (n + 1) fs rest
+
+end D2V.ImportFlat
